@@ -86,13 +86,14 @@ def gen_spec(rng, solver, df, pen, seed, coords, variant):
     if solver == "GramCD":
         knobs["greedy_cd"] = bool(rng.integers(0, 2))
         knobs["use_acc"] = not knobs["greedy_cd"]
-    return dict(check="C20", seed=seed, coords=coords, solver=solver, datafit=df, penalty=pen, storage=storage,
+    return K.widen(rng, dict(check="C20", seed=seed, coords=coords, solver=solver, datafit=df, penalty=pen, storage=storage,
                 fit_intercept=icpt, strategy=strategy, n=n, p=p, xkind=str(rng.choice(["gauss", "ar"])), rho=0.7,
                 density=float(rng.choice([1.0, 0.6])), alpha_frac=float(rng.choice([0.05, 0.3])),
                 positive=bool(rng.integers(0, 2)) if pen in K.POSFLAG + ["WeightedGroupL2"] else False,
                 zero_weights=bool(rng.integers(0, 2)), knobs=knobs,
                 group_style=str(rng.choice(["contig", "perm", "trap"])), n_tasks=int(rng.integers(1, 4)),
-                warm=str(rng.choice(["cold", "zero"])) if small_ws else str(rng.choice(["cold", "dense", "sparse"])))
+                warm=str(rng.choice(["cold", "zero"])) if small_ws else str(rng.choice(["cold", "dense", "sparse"]))),
+                   prob=0.08, n_range=(20, 50), p_range=(40, 120), p0=(1, 2, 5), fracs=(0.1, 0.3))
 
 
 def _guard(a, fill):
@@ -248,7 +249,8 @@ def post(results):
             if a.get("has_nan") or b.get("has_nan"):
                 viols.append(dict(common, mechanism="nan-in-output(guard-band-read?)", detail="NaN in w / objective history"))
         rec = dict(base, nontrivial=bool(a["outcome"] == "returned" and b["outcome"] == "returned" and a["n_obj"] >= 1),
-                   hist={"outcome": "%s/%s" % (a["outcome"], b["outcome"]), "nondeterministic_cell": nondet},
+                   hist={"outcome": "%s/%s" % (a["outcome"], b["outcome"]), "nondeterministic_cell": nondet,
+                         "size": "wide" if (desc.get("p") or 0) >= 40 else "small"},
                    count=dict(triples=1, margin_independent_bitwise=int(bw_margin), checked_equals_plain_bitwise=int(bw_checked)))
         if viols:
             rec.update(status="violated", viol=viols[0], viols=viols, obs=dict(case=desc, plain={k: a.get(k) for k in (
